@@ -1,5 +1,3 @@
 package main
 
-func c11(seed uint64, n int, sched string)    {}
-func c11resp(seed uint64, n int)              {}
 func c16(seed uint64, n int, args []string)   {}
